@@ -26,7 +26,7 @@ ArgSets(hh) ==
     [] hh \in {"pen_pos_down", "pen_pos_up", "pen_rate_down", "pen_rate_up", "set_layer"} -> T1(Ints)
     [] hh = "var_write" -> T2({0, 1, 255}, {0, 1, 31})
     [] hh = "var_read" -> T1({0, 1, 28, 31})
-    [] hh = "var_write_int32" -> T2({0, 1, -1, 255, 256, 65535, 16777216, -16777216, 16909060, -16909060, 2147483647, -2147483647}, {0, 1, 27, 28})
+    [] hh = "var_write_int32" -> T2({0, 1, -1, 255, 256, 65535, 16777216, -16777216, 16909060, -16909060, 2147483647, -2147483647, (0 - 2147483647) - 1}, {0, 1, 27, 28})
     [] hh = "var_read_int32" -> T1({0, 1, 28})
     [] OTHER -> {<<>>}
 AllHelpers == Helpers \cup {"motors_enable"}
